@@ -3,7 +3,7 @@
    deviation classes, the implementation model's answer (projected) and resulting file system equal
    the specification's.  Built on WalkBridge / WalkSym. *)
 From Avfs Require Import Base PathModel PathSpec PathProofs PathCleanProofs PathIterProofs.
-From Avfs Require Import MemFS MemFile World Posix WalkBridge WalkSym WalkBudget WalkReadlink WalkRel.
+From Avfs Require Import MemFS MemFile World Posix WalkBridge WalkSym WalkBudget WalkReadlink WalkRel DacLemmas.
 
 (* ---- facts about the kernel walk's results ------------------------------------------------------- *)
 Lemma kwalk_final : forall f h u root follow cur (work : list str) cnt md K,
@@ -508,8 +508,8 @@ Lemma admin_may_delete (s : fsys) (sv : sview) (par n : nat) (isdir : bool) :
   = if isdir then (if node_is_dir (f_heap s) n then None else Some ENOTDIR)
     else (if node_is_dir (f_heap s) n then Some EISDIR else None).
 Proof.
-  intros H Hg. unfold may_delete, sticky_refuses. rewrite (admin_kperm s sv par 3 H Hg), (sh_admin _ _ H).
-  cbn [negb]. rewrite andb_false_r. reflexivity.
+  intros H Hg. unfold may_delete. rewrite (admin_kperm s sv par 3 H Hg), (sticky_admin _ _ _ _ (sh_admin _ _ H)).
+  reflexivity.
 Qed.
 
 Theorem step_remove (s : fsys) (sv : sview) (w : list str) (cl : str) :
@@ -532,7 +532,7 @@ Proof.
       apply alookup_in. exact F1. }
     rewrite R2, R5, R1, V1, F1. cbn [is_file_exists negb].
     replace (Nat.eqb par n) with false by (symmetry; apply Nat.eqb_neq; congruence).
-    rewrite (admin_perm_on s sv par _ H Hvp). cbn [negb].
+    rewrite (admin_perm_on s sv par _ H Hvp), (sticky_admin _ _ _ _ (sh_admin _ _ H)). cbn [negb].
     rewrite !(admin_may_delete s sv par n _ H Hvp).
     destruct (get (f_heap s) n) as [[ch m|dt k i m|t m]|] eqn:Hgn; [| | |congruence].
     + assert (Hnd : node_is_dir (f_heap s) n = true) by (unfold node_is_dir; rewrite Hgn; reflexivity).
@@ -1091,7 +1091,8 @@ Proof.
     assert (Hvo : get (f_heap s) op <> None) by (apply node_is_dir_valid; exact Fo2).
     assert (Hvn : get (f_heap s) np <> None) by (apply node_is_dir_valid; exact Fn2).
     rewrite O1, N1, NV2, O5, O2, N3, OV1, NV1, N2. cbn [is_file_exists is_not_exist negb andb orb].
-    rewrite !(admin_perm_on s sv _ _ H) by assumption. cbn [negb andb]. rewrite andb_false_r.
+    rewrite !(admin_perm_on s sv _ _ H) by assumption. rewrite !(sticky_admin _ _ _ _ (sh_admin _ _ H)).
+    cbn [negb andb]. rewrite !andb_false_r.
     (* the two resolved paths differ *)
     assert (Hdiff : str_eqb (pi_path (sr_pi ro)) (pi_path (sr_pi rn)) = false).
     { apply str_eqb_neq. rewrite OP, NP. intros E.
